@@ -666,6 +666,8 @@ class Interp:
 
     def s_For(self, st, env):
         it = self.eval(st.iter, env)
+        if isinstance(it, SObj) and "_tpv_family" in it.f:
+            it = it.f["_tpv_family"]
         spec = self.loop_spec_for(st, env)
         if spec is not None:
             return spec.run_for(self, st, env, it)
@@ -720,6 +722,8 @@ class Interp:
             return list(it.keys())
         if isinstance(it, SymRange):
             raise Unsupported("iteration over a symbolic range")
+        if hasattr(it, "tpv_sym_iter"):
+            raise Unsupported("iteration over a symbolic family without a loop contract")
         if isinstance(it, SObj):
             if it.native is not None and isinstance(it.native, dict):
                 c, m = self.find_method(it.cls, "__iter__")
